@@ -109,3 +109,17 @@ claim('C03', 'translation_validation',
       'stated shape space through the decision tree; the solver decides the zero-replacement family.',
       'decision-tree exploration of the real expansion code + decoded-definition equality against the law\'s reference '
       'expansion', 'DESIGN.md 3/C03')
+
+claim('C08', 'model_checking',
+      'Bounded model checking of the real SystemClock._run, TempoClock._run and AppClock._run loops by '
+      'environment-in-wait co-simulation: physical time is a symbolic non-decreasing real, the placement of up to 3 '
+      'foreign actions (sched, sched_abs, clear, tempo change) relative to the clock thread\'s sleep/wake cycle and every '
+      'wait outcome (notified, timed out, blocked for ever) are solver decisions, scheduling deltas and the re-schedule '
+      'value are symbolic reals, all subsets of raising tasks. Obligations per path (z3): exactly once per scheduling, '
+      'never early, in the zero-jitter sub-model exactly on time (no waiting for an unrelated deadline), (time, '
+      'scheduling order) order, re-schedule relative to the scheduled time, clear cancels, no blocking for ever with a '
+      'pending task. Schedule counterexamples are replayed on real threads and real time.',
+      _TB + '; threading.Condition/Thread/RLock inside sc3.base.clock are replaced by the co-simulation fakes '
+      '(no spurious wake-ups; a notify without waiter is lost); tasks take no time; TempoClock tempo from a grid.',
+      'symbolic co-simulation of the real run loops (interleavings and time as solver variables) + SMT validity',
+      'DESIGN.md 2.3, 3/C08')
